@@ -60,12 +60,23 @@ func (e *Env) SetItem(name string, key, val []byte, prio int32, useSet bool) {
 	valid := model.ValidItem(key, val, prio)
 	var err error
 	var it *gkvlite.Item
+	ikey, ival := key, val
+	if e.RC != nil && e.RC.Recycle {
+		// the store gets buffers of its own: a recycling allocator overwrites them on release, and
+		// the model keeps the originals
+		if key != nil {
+			ikey = append(make([]byte, 0, len(key)), key...)
+		}
+		if val != nil {
+			ival = append(make([]byte, 0, len(val)), val...)
+		}
+	}
 	e.guard("Set", func() {
 		e.tag("Set")
 		if useSet {
-			err = c.Set(key, val)
+			err = c.Set(ikey, ival)
 		} else {
-			it = &gkvlite.Item{Key: key, Val: val, Priority: prio}
+			it = &gkvlite.Item{Key: ikey, Val: ival, Priority: prio}
 			if e.RC != nil {
 				e.RC.Alloc(it) // the application's own reference
 			}
@@ -1044,6 +1055,26 @@ func (e *Env) CopyTo(snap int, flushEvery int) (dst *vfile.File) {
 	}
 	e.Stats["op.CopyTo"]++
 	dst = vfile.New("copy-dst")
+	if pre := e.DstPre; pre != nil {
+		// the destination file already holds a store: CopyTo opens it and copies INTO it, so the
+		// result is that store with the source's collections set over it
+		e.DstPre = nil
+		dst = vfile.FromBytes("copy-dst", pre.Img)
+		merged := pre.State.Clone()
+		for n, c := range ms.Colls {
+			mc, ok := merged.Colls[n]
+			if !ok {
+				mc = model.NewColl(c.Cmp)
+				merged.Colls[n] = mc
+			}
+			mc.Cmp = c.Cmp
+			for _, kv := range c.Sorted() {
+				mc.Set(kv.Key, kv.Val, kv.Prio)
+			}
+		}
+		ms = merged
+		e.Stats["op.CopyTo.into-existing-store"]++
+	}
 	dst.KeepLog = true
 	dst.SetTag("CopyTo(dst)")
 	if e.DstFault != nil {
@@ -1095,13 +1126,24 @@ func (e *Env) CopyTo(snap int, flushEvery int) (dst *vfile.File) {
 		}
 	}
 	// destination contents through the returned store
-	e2 := &Env{Cfg: Config{}, Name: "copy-dst", F: dst, S: res, M: &model.Store{Live: ms.Clone()}, Stats: map[string]int64{}, H: map[string]*gkvlite.Collection{}}
+	e2 := &Env{Cfg: Config{}, Name: "copy-dst", F: dst, S: res, M: &model.Store{Live: ms.Clone()}, Stats: map[string]int64{}, H: map[string]*gkvlite.Collection{}, Cmps: e.Cmps}
 	e2.checkNames("copyto-dst", res, ms)
 	if !e2.Failed() {
 		for _, n := range res.GetCollectionNames() {
 			e2.H[n] = res.GetCollection(n)
 		}
 		e2.ReadbackAll(RTotals | RAscVal | RMinMax | RGets)
+		if e.Cfg.Walk && !e2.Failed() {
+			e2.WalkCheck()
+			for _, n := range ms.Names() {
+				if !e2.Failed() {
+					e2.ShapeCheck(n)
+				}
+			}
+			for k, v := range e2.Stats {
+				e.Stats[k] += v
+			}
+		}
 	}
 	if e2.Failed() {
 		e.Failf("copyto/dst-"+e2.Viol.Sig, "store returned by CopyTo: %s", e2.Viol.Detail)
